@@ -36,6 +36,7 @@ import (
 	"sync"
 	"syscall"
 	"time"
+	"unsafe"
 
 	"github.com/refraction-networking/conjure/pkg/station/log"
 	pb "github.com/refraction-networking/conjure/proto"
@@ -115,7 +116,7 @@ func c20Key(tag string, j int) *pb.PubKey {
 func c20Decoys(j int) []*pb.TLSDecoySpec {
 	n := 2 + j%5
 	if c20LargeDecoys(j) {
-		n = 33000 + (j*131)%3000 // ≈ 4 MB marshalled, the exact size depends on j
+		n = 37000 + (j*131)%3000 // ≈ 4 MB marshalled, the exact size depends on j
 	}
 	// one xorshift stream per version: cheap, deterministic, and different for every j
 	x := uint64(j)*0x9E3779B97F4A7C15 + 0x1234567
@@ -231,7 +232,7 @@ func (r *c20FdReader) line() (string, bool) {
 
 func c20ChildMain() {
 	runtime.LockOSThread()
-	signal.Ignore(syscall.SIGXFSZ, syscall.SIGPIPE)
+	signal.Ignore(syscall.SIGPIPE)
 	log.SetOutput(io.Discard)
 	say := func(format string, a ...interface{}) {
 		line := []byte(fmt.Sprintf(format, a...) + "\n")
@@ -296,7 +297,7 @@ func c20ChildMain() {
 		case "store": // store k [full] [bad]
 			k, _ := strconv.Atoi(f[1])
 			force = !c20ChildStore(as, k, force || has("full"), has("bad"), say)
-		case "rlimit": // rlimit nofile|fsize <n> | rlimit restore
+		case "rlimit": // rlimit nofile|fsize <n> [die] | rlimit restore
 			switch f[1] {
 			case "nofile", "fsize":
 				res, slot := syscall.RLIMIT_NOFILE, 0
@@ -304,6 +305,22 @@ func c20ChildMain() {
 					res, slot = 1 /* RLIMIT_FSIZE */, 1
 				}
 				n, _ := strconv.ParseUint(f[2], 10, 64)
+				if f[1] == "fsize" && has("die") {
+					// The Go runtime ignores SIGXFSZ, so a write at the limit just fails with EFBIG.  With "die" the kernel's
+					// default disposition is put back behind the runtime's back: the write that reaches the limit terminates
+					// the process – a crash in mid-write at a chosen offset.  No core file, please.
+					syscall.Setrlimit(syscall.RLIMIT_CORE, &syscall.Rlimit{Cur: 0, Max: 0})
+					var sa struct {
+						handler  uintptr // 0 = SIG_DFL
+						flags    uint64
+						restorer uintptr
+						mask     uint64
+					}
+					if _, _, e := syscall.RawSyscall6(syscall.SYS_RT_SIGACTION, uintptr(syscall.SIGXFSZ), uintptr(unsafe.Pointer(&sa)), 0, 8, 0, 0); e != 0 {
+						say("R err rt_sigaction: %v", e)
+						continue
+					}
+				}
 				var cur syscall.Rlimit
 				if err := syscall.Getrlimit(res, &cur); err != nil {
 					say("R err %v", err)
@@ -433,6 +450,7 @@ func (s *c20Sup) start(dir string, expect int, extraEnv ...string) (*c20Proc, er
 	defer logf.Close()
 	cmd.Stdout, cmd.Stderr = logf, logf
 	cmd.ExtraFiles = []*os.File{evW, ctlR}
+	cmd.Dir = s.base // never the repository
 	cmd.SysProcAttr = &syscall.SysProcAttr{Pdeathsig: syscall.SIGKILL}
 	if err := cmd.Start(); err != nil {
 		evR.Close()
@@ -578,13 +596,16 @@ type c20Sys struct {
 	Nth      int    // 1-based index among the calls of the same name since strace attached (what when=N counts)
 	Injected bool   // strace tampered with this call (error injection)
 	Fd3      bool
+	OnDir    bool // the call names a path under the assets directory, or a descriptor opened from there
 }
 
 var c20SysRe = regexp.MustCompile(`^([a-z0-9_]+)\((.*)$`)
 var c20ProtoRe = regexp.MustCompile(`^3, "((?:[^"\\]|\\.)*)"`)
+var c20FdArgRe = regexp.MustCompile(`^(\d+)[,)]`)
+var c20RetFdRe = regexp.MustCompile(`\) = (\d+)\s*$`)
 
-// c20ParseStrace reads a log written by `strace -p tid -o`.
-func c20ParseStrace(path string) (seq []c20Sys, killed bool, err error) {
+// c20ParseStrace reads a log written by `strace -p tid -o`; dir is the assets directory of that run.
+func c20ParseStrace(path, dir string) (seq []c20Sys, killed bool, err error) {
 	b, err := os.ReadFile(path)
 	if err != nil {
 		return nil, false, err
@@ -592,6 +613,7 @@ func c20ParseStrace(path string) (seq []c20Sys, killed bool, err error) {
 	store := 0
 	nth := map[string]int{}
 	idx := map[string]int{}
+	dirFds := map[string]bool{}
 	for _, l := range strings.Split(string(b), "\n") {
 		if strings.HasPrefix(l, "+++ killed by SIGKILL") {
 			killed = true
@@ -606,6 +628,17 @@ func c20ParseStrace(path string) (seq []c20Sys, killed bool, err error) {
 			if pm := c20ProtoRe.FindStringSubmatch(m[2]); pm != nil {
 				sc.Fd3 = true
 				sc.Proto = strings.TrimSpace(strings.ReplaceAll(pm[1], `\n`, " "))
+			}
+		}
+		if strings.Contains(m[2], `"`+dir+`/`) || strings.Contains(m[2], `"`+dir+`"`) {
+			sc.OnDir = true
+			if rm := c20RetFdRe.FindStringSubmatch(l); rm != nil && strings.HasPrefix(sc.Name, "open") {
+				dirFds[rm[1]] = true
+			}
+		} else if fm := c20FdArgRe.FindStringSubmatch(m[2]); fm != nil && dirFds[fm[1]] {
+			sc.OnDir = true
+			if sc.Name == "close" && !sc.Injected {
+				delete(dirFds, fm[1])
 			}
 		}
 		f := strings.Fields(sc.Proto)
@@ -768,7 +801,7 @@ func c20Leftovers(dir string, remove bool) (sizes []int64) {
 
 // c20Sup is the supervisor state.
 type c20Sup struct {
-	rec     interface{ c20Rec }
+	rec     c20Rec
 	base    string // scratch root (under VERIF_OUT)
 	tmpdir  string // TMPDIR given to the children (on the scratch file system; the pinned code does not use it)
 	mountns bool   // we are in a private mount namespace and may mount
@@ -786,6 +819,22 @@ type c20Sup struct {
 		sync.Mutex
 		kills, crashpoints, faults int
 	}
+	soft    []string
+	samples map[string]int // written-out samples per kind (a few of each kind rather than the first six)
+}
+
+// wantSample: at most max samples of each kind (the recorder keeps six in all).
+func (s *c20Sup) wantSample(kind string, max int) bool {
+	s.cmu.Lock()
+	defer s.cmu.Unlock()
+	if s.samples == nil {
+		s.samples = map[string]int{}
+	}
+	if s.samples[kind] >= max {
+		return false
+	}
+	s.samples[kind]++
+	return true
 }
 
 // c20Rec is the part of kit.Rec the supervisor uses.
